@@ -160,7 +160,14 @@ class XMLParser(object):
                             done = True
                         else:
                             if isinstance(data, six.text_type):
-                                data = data.encode('utf-8')
+                                try:
+                                    data = data.encode('utf-8')
+                                except UnicodeEncodeError:
+                                    # A lone surrogate is not a character:
+                                    # Expat reports it where it stands, as
+                                    # it does for such bytes in a file
+                                    data = data.encode('utf-8',
+                                                       'surrogatepass')
                             self._parse(data, False)
                     for event in self._queue:
                         yield event
